@@ -43,13 +43,14 @@ def run(ctx, model_ok):
     groups = []
     for key in keys:
         for rep in range(reps):
-            base = dc.in_domain_first(R, key, rng, base=[1001 + 7 * rep, 2002 + rep, 3003 + rep, 4004 + rep] if rep == 0 else None)
+            base = dc.in_domain_first(R, key, rng, base=[1001 + 7 * rep, 2002 + rep, 3003 + rep, 4004 + rep] if rep == 0 else None,
+                                       flags_in_domain=True)
             last = [rng.choice([0, 0, 2, 13]), rng.choice(dc.SPECIAL), rng.getrandbits(8), rng.getrandbits(8)]
             paths = [(rng.randint(1, 99), rng.choice([b'/etc/passwd', b'/tmp/a b', b'x' * 40])) for _ in range(rng.choice([0, 1, 2]))] \
                 if R.uses_paths(key) else []
             start = len(metas)
             metas.append((key, base, last, 7, paths, []))
-            enumw = set(R.enum_words(key)) | set(R.host_enum_words(key))
+            enumw = set(R.enum_words(key)) | set(R.host_enum_words(key)) | {i for _, i in R.flag_words(key)}
             for k in range(4):
                 if k in enumw:
                     continue
@@ -62,7 +63,7 @@ def run(ctx, model_ok):
     out = dc.run_windows(R, metas)
     res = out['results']
     ctx.evaluations = len(metas)
-    ctx.rule = ('every syscall/trap row x marker START tuples (distinct per position; enum-typed words drawn from their enum), each '
+    ctx.rule = ('every syscall/trap row x marker START tuples (distinct per position; enum-typed words drawn from their enum, flag-typed words from the unions of their declared members), each '
                 'START word varied alone (incl. 2^63+5 and 2^64-1) and the END record varied alone, with 0..2 nested lookups; '
                 'non-trivial = distinct (row, tuple) whose rendering has >= 2 numeric parameters')
     for key, a, b in groups:
